@@ -2,7 +2,7 @@
 from e2 import E2
 FILES = ['src/core/arena.c', 'src/core/buffer.c', 'src/writer/page_writer.c', 'src/writer/column_writer.c', 'src/writer/row_group_writer.c',
          'src/writer/file_writer.c', 'src/reader/file_reader.c', 'src/reader/page_reader.c', 'src/reader/batch_reader.c', 'src/thrift/parquet_types.c', 'src/metadata/schema.c']
-BUDGET = {'quick': 900, 'thorough': 3000}
+BUDGET = {'quick': 840, 'thorough': 3000}
 H = 'harness/e2/c19_oom.c'
 STUBS = ['malloc/calloc/realloc/strdup: fault fork — every allocation made while faults are enabled also runs on a path where it returns NULL (exactly one failure per path)',
          'stdio / mmap: in-memory model file system', 'cpuid: no SIMD features (scalar dispatch)']
